@@ -156,7 +156,10 @@ func (c *copier) prepareTargetDir(srcFollowed, src, destPath string, copyDirCont
 	}
 
 	if (!copyDirContents && fiSrc.IsDir() && fiDest != nil) || (!fiSrc.IsDir() && fiDest != nil && fiDest.IsDir()) {
-		destPath = filepath.Join(destPath, filepath.Base(src))
+		// name the source as rootPath resolved it: a path that cleans to the
+		// source root ("..", "d/..") has no name of its own and must not make
+		// the target the parent of destPath
+		destPath = filepath.Join(destPath, filepath.Base(filepath.Join("/", src)))
 	}
 
 	target := filepath.Dir(destPath)
